@@ -251,7 +251,10 @@ def check_run(ctx, desc, label, case, events, agent, tr, store, thread_name=None
                 ctx.violation(f'C15/capture-delivered-twice/{ckind}', f'{label}: snapshot delivered twice', case)
                 return
             seen.add(id(snap))
-        opened = [e for e in events if (ckind == 'capture_method' and e.kind == 'call' and e.func == desc['at']) or
+        first_of = {}
+        for e in events:
+            first_of.setdefault(e.inv, e.idx)
+        opened = [e for e in events if (ckind == 'capture_method' and e.kind == 'call' and e.func == desc['at'] and first_of[e.inv] == e.idx) or
                   (ckind == 'capture_line' and e.kind == 'line' and e.line == desc['at'])]
         if desc['fc'] == '1':
             opened = opened[:1]
